@@ -223,15 +223,31 @@ theorem s2c_plain (v : Str) (hq : '\'' ∉ v) (hl : v.length ≤ 68) : s2c v = '
   have h4 : 9 - (1 + v.length) = 8 - v.length := by omega
   rw [h4]; rfl
 
-theorem stripQuotes_quoted (w : Str) : stripQuotes ('\'' :: (w ++ ['\''])) = w := by
+theorem undouble_plain : ∀ (w : Str), '\'' ∉ w → undouble w = w
+  | [], _ => rfl
+  | c :: r, h => by
+    have hc : c ≠ '\'' := fun e => h (by simp [e])
+    have hr : '\'' ∉ r := fun e => h (by simp [e])
+    have : undouble (c :: r) = c :: undouble r := undouble.eq_3 c r (fun r' hc' _ => hc hc')
+    rw [this, undouble_plain r hr]
+
+theorem stripQuotes_quoted (w : Str) (hq : '\'' ∉ w) : stripQuotes ('\'' :: (w ++ ['\''])) = w := by
   have h1 : ('\'' :: (w ++ ['\''])).getLast? = some '\'' := by
     rw [List.getLast?_cons_of_ne_nil (by simp)]; simp
   unfold stripQuotes
   rw [if_pos (by rfl), if_pos ⟨by simp, h1⟩]
-  simp
+  simp only [List.drop_succ_cons, List.drop_zero, List.dropLast_concat]
+  exact undouble_plain w hq
+
+theorem pad8_noquote (v : Str) (hq : '\'' ∉ v) : '\'' ∉ pad8 v := by
+  unfold pad8
+  intro h
+  rcases List.mem_append.mp h with h | h
+  · exact hq h
+  · have := List.eq_of_mem_replicate h; exact absurd this (by decide)
 
 theorem stripQuotes_s2c (v : Str) (hq : '\'' ∉ v) (hl : v.length ≤ 68) : stripQuotes (s2c v) = pad8 v := by
-  rw [s2c_plain v hq hl, stripQuotes_quoted]
+  rw [s2c_plain v hq hl, stripQuotes_quoted _ (pad8_noquote v hq)]
 
 theorem c2sLoop_plain (w : Str) (hq : '\'' ∉ w) : c2sLoop (w ++ ['\'']) = w := by
   induction w with
